@@ -18,7 +18,12 @@ RULE = ('requested names from streams {valid identifier, keyword in any case / w
         'avoid sets built from the id the implementation would choose: case/Unicode variants of it and runs of its '
         'numeric suffixes (2,3,..n), first-n letters A,B,..,AA.. for empty names (thorough: beyond ZZ), Table1..n, plus '
         'noise; batches drawn with repetition from small pools; thorough adds the exhaustive space of all strings of '
-        'length <= 3 over a 7-symbol alphabet x 4 avoid sets, and engine-level AddTable/AddColumn/Rename histories. '
+        'length <= 3 over a 7-symbol alphabet x 4 avoid sets; every keyword in 5 case variants, bare and wrapped in invalid '
+        'characters, through both pick functions, batches and engine AddTable/RenameTable/AddColumn/RenameColumn; '
+        'engine histories with one or two (sister) summary tables followed by bundles that rename a group-by source '
+        'column together with summary-table columns (BulkUpdateRecord on _grist_Tables_column by colId or label, or '
+        'several UpdateRecords) to equal / case-variant / keyword / unsanitised names: after every bundle all ids of '
+        'every table must be valid, non-keyword, pairwise distinct case-insensitively, and such a bundle must not fail. '
         'A case is non-trivial when the chosen id differs from the requested text (sanitised, prefixed, suffixed or '
         'generated) or, for a valid request, when the avoid set is non-empty.')
 TRUSTED = ['Model/Ident.v is hand-written; it is compared on every run with identifiers._sanitize_ident, _add_suffix, '
@@ -1097,6 +1102,9 @@ def summary_search(ctx):
       continue
     ctx.count(('summary', repr(concrete)), nontrivial=True, kind='engine-summary-rename-history')
     if bad:
+      ctx.bump('engine-summary:' + bad[0])
+      if bad[0] == 'sister-rename-collision' and any(v['kind'] == 'engine:' + bad[0] for v in ctx.violations):
+        continue       # the registered finding: one minimised instance per run is enough
       small = shrink(w, bad[0])
       ctx.violation('engine:' + bad[0], (engine_oracle(small) or bad)[1], small)
       if len(ctx.violations) > 20:
